@@ -523,6 +523,9 @@ func (in *Interp) builtin(fr *frame, b *ssa.Builtin, c *ssa.CallCommon, args []V
 			return in.cInt(uint64(len(x)), 64, true)
 		}
 	case "append":
+		if r, ok := in.absAppend(args[0], args[1]); ok {
+			return r
+		}
 		dst := args[0].(Slice)
 		switch src := args[1].(type) {
 		case Slice:
